@@ -7,10 +7,12 @@ import Goyang.Lemmas.Lex
 import Goyang.Lemmas.Utf8
 import Goyang.Lemmas.QStr
 import Goyang.Spec.Parse
+import Goyang.Lemmas.Scan
 
 namespace Goyang.Lemmas.LexSim
 open Goyang.Model.Lex Goyang.Model.Utf8 Goyang.Lemmas.Utf8 Goyang.Lemmas.Lex
 open Goyang.Spec.Parse
+open Goyang.Lemmas.Scan
 
 /-! ## positions from the text -/
 
@@ -104,6 +106,29 @@ theorem next_cons_pos (l : Lexer) (h : l.rest ≠ []) :
     split
     · exact ⟨rfl, rfl, rfl⟩
     · split <;> exact ⟨rfl, rfl, rfl⟩
+
+/-- reading one character: the cursor -/
+theorem next_char_cur (l : Lexer) (pre suf : List Char) (c : Char) (hc : Cur l pre (c :: suf)) :
+    (next l).1 = c.toNat ∧ Cur (next l).2 (pre ++ [c]) suf ∧
+    (next l).2.width = (encChar c).length ∧ Frame l (next l).2 := by
+  have hrest : l.rest = encChar c ++ encodeChars suf := by rw [hc.rest, encodeChars_cons]
+  have hne : l.rest ≠ [] := by
+    rw [hrest]; intro h; exact encChar_ne_nil c (List.append_eq_nil_iff.mp h).1
+  have hdec : decodeRune l.rest = (c.toNat, (encChar c).length) := by rw [hrest]; exact decodeRune_encChar c _
+  obtain ⟨n1, n2, n3, n4⟩ := next_cons l hne
+  obtain ⟨p1, p2, p3⟩ := next_cons_pos l hne
+  rw [hdec] at n1 n2 n3 n4 p1
+  simp only at n1 n2 n3 n4 p1
+  have hnl : c.toNat = 10 ↔ c = '\n' := toNat_eq_iff c '\n'
+  refine ⟨n1, ⟨?_, ?_, ?_⟩, n4, next_frame l⟩
+  · rw [n2, hrest, List.take_left', hc.before, encodeChars_append, List.reverse_append]
+    · simp [encodeChars, encChar]
+    · rfl
+  · rw [n3, hrest, List.drop_left']; rfl
+  · rw [p1, lineAfter_snoc, hc.line]
+    by_cases h : c = '\n'
+    · rw [if_pos (hnl.2 h), if_pos h]
+    · rw [if_neg (fun h' => h (hnl.1 h')), if_neg h]
 
 /-- reading one character -/
 theorem next_char (l : Lexer) (pre suf : List Char) (c : Char) (hc : Cur l pre (c :: suf))
@@ -426,5 +451,916 @@ theorem afterLastNL_enc (s : List Char) : afterLastNL (encodeChars s) = encodeCh
   have h1 := encodeChars_reverse s.reverse
   rw [List.reverse_reverse] at h1
   rw [h1, takeWhile_enc_rev, ← encodeChars_reverse, List.reverse_reverse]
+
+theorem lastLine_append (pre s : List Char) :
+    lastLine (pre ++ s) = if '\n' ∈ s then lastLine s else lastLine pre ++ s := by
+  induction s using List.rec generalizing pre with
+  | nil => simp
+  | cons d r ih =>
+    have := ih (pre ++ [d])
+    rw [List.append_assoc] at this
+    simp only [List.singleton_append] at this
+    rw [this]
+    by_cases hr : '\n' ∈ r
+    · rw [if_pos hr, if_pos (by simp [hr])]
+      have h2 := ih [d]
+      simp only [List.singleton_append] at h2
+      rw [h2, if_pos hr]
+    · rw [if_neg hr]
+      have h2 := ih [d]
+      simp only [List.singleton_append] at h2
+      rw [h2, if_neg hr]
+      by_cases hd : d = '\n'
+      · subst hd
+        rw [if_pos (by simp), lastLine_snoc_nl]
+        simp [lastLine]
+      · rw [if_neg (by simp [hr, Ne.symm hd]), lastLine_snoc pre d hd]
+        simp
+
+theorem lastLine_of_no_nl (s : List Char) (h : '\n' ∉ s) : lastLine s = s := by
+  have := lastLine_append [] s
+  rw [if_neg h] at this
+  simpa [lastLine] using this
+
+/-- the tab-expanded width, continued -/
+def tabFold (w : Nat) (cs : List Char) : Nat :=
+  cs.foldl (fun w c => if c = '\t' then (w / 8 + 1) * 8 else w + 1) w
+
+theorem tabWidth_append (a b : List Char) : tabWidth (a ++ b) = tabFold (tabWidth a) b := by
+  simp [tabWidth, tabFold, List.foldl_append]
+
+theorem tabWidth_eq_fold (b : List Char) : tabWidth b = tabFold 0 b := rfl
+
+theorem foldl_cursorStep (cs : List Char) : ∀ (l : Lexer),
+    ((cs.map Char.toNat).foldl cursorStep l).line = l.line ∧
+    ((cs.map Char.toNat).foldl cursorStep l).col = l.col + cs.length ∧
+    (∀ w : Nat, l.tcol = w → ((cs.map Char.toNat).foldl cursorStep l).tcol = (tabFold w cs : Nat)) := by
+  induction cs with
+  | nil => intro l; exact ⟨rfl, by simp, fun w h => by simpa [tabFold] using h⟩
+  | cons d r ih =>
+    intro l
+    simp only [List.map_cons, List.foldl_cons]
+    obtain ⟨h1, h2, h3⟩ := ih (cursorStep l d.toNat)
+    have htab : d.toNat = 9 ↔ d = '\t' := toNat_eq_iff d '\t'
+    refine ⟨?_, ?_, ?_⟩
+    · rw [h1]; unfold cursorStep; split <;> rfl
+    · rw [h2]
+      have : (cursorStep l d.toNat).col = l.col + 1 := by unfold cursorStep; split <;> rfl
+      rw [this]; simp only [List.length_cons]; omega
+    · intro w hw
+      by_cases hd : d = '\t'
+      · have : (cursorStep l d.toNat).tcol = (((w / 8 + 1) * 8 : Nat) : Int) := by
+          unfold cursorStep
+          rw [if_pos (htab.2 hd)]
+          simp only
+          rw [hw]; push_cast; omega
+        rw [h3 _ this]
+        simp [tabFold, hd]
+      · have : (cursorStep l d.toNat).tcol = ((w + 1 : Nat) : Int) := by
+          unfold cursorStep
+          rw [if_neg (fun h => hd (htab.1 h))]
+          simp only
+          rw [hw]; push_cast; rfl
+        rw [h3 _ this]
+        simp [tabFold, hd]
+
+theorem updateCursor_pos (n : Nat) (l : Lexer) :
+    (updateCursor n l) = (runes (afterLastNL (l.rest.take n))).foldl cursorStep
+      (if (l.rest.take n).count 10 > 0 then
+        { l with before := (l.rest.take n).reverse ++ l.before, rest := l.rest.drop n, width := n,
+                 line := l.line + ((l.rest.take n).count 10 : Nat), col := 0, tcol := 0 }
+       else { l with before := (l.rest.take n).reverse ++ l.before, rest := l.rest.drop n, width := n }) := by
+  unfold updateCursor
+  simp only
+
+/-- moving the cursor over the characters `s` in one go -/
+theorem updateCursor_chars (l : Lexer) (pre s suf : List Char) (hc : Cur l pre (s ++ suf)) (hp : Pos l pre) :
+    Cur (updateCursor (encodeChars s).length l) (pre ++ s) suf ∧
+    Pos (updateCursor (encodeChars s).length l) (pre ++ s) ∧
+    Frame l (updateCursor (encodeChars s).length l) := by
+  obtain ⟨u1, u2, u3⟩ := updateCursor_spec (encodeChars s).length l
+  have hrest : l.rest = encodeChars s ++ encodeChars suf := by rw [hc.rest, encodeChars_append]
+  have htake : l.rest.take (encodeChars s).length = encodeChars s := by rw [hrest, List.take_left']; rfl
+  have hdrop : l.rest.drop (encodeChars s).length = encodeChars suf := by rw [hrest, List.drop_left']; rfl
+  have hpos := updateCursor_pos (encodeChars s).length l
+  rw [htake, hdrop, afterLastNL_enc, runes_enc, count_nl_enc] at hpos
+  have hcnt : (0 < s.count '\n') ↔ '\n' ∈ s := List.count_pos_iff
+  refine ⟨⟨?_, ?_, ?_⟩, ⟨?_, ?_⟩, u1⟩
+  · rw [u2, htake, hc.before, encodeChars_append, List.reverse_append]
+  · rw [u3, hdrop]
+  · rw [hpos]
+    by_cases hnl : '\n' ∈ s
+    · rw [if_pos (hcnt.2 hnl)]
+      rw [(foldl_cursorStep (lastLine s) _).1]
+      simp only
+      rw [hc.line]
+      unfold lineAfter
+      rw [List.count_append]; push_cast; omega
+    · rw [if_neg (fun h => hnl (hcnt.1 h))]
+      rw [(foldl_cursorStep (lastLine s) _).1]
+      simp only
+      rw [hc.line]
+      unfold lineAfter
+      rw [List.count_append, List.count_eq_zero_of_not_mem hnl]; rfl
+  · rw [hpos]
+    unfold colAfter
+    rw [lastLine_append]
+    by_cases hnl : '\n' ∈ s
+    · rw [if_pos (hcnt.2 hnl), if_pos hnl, (foldl_cursorStep (lastLine s) _).2.1]
+      simp
+    · rw [if_neg (fun h => hnl (hcnt.1 h)), if_neg hnl, (foldl_cursorStep (lastLine s) _).2.1]
+      simp only
+      rw [hp.col]
+      unfold colAfter
+      have : lastLine s = s := lastLine_of_no_nl s hnl
+      rw [this, List.length_append]; push_cast; rfl
+  · rw [hpos]
+    unfold tcolAfter
+    rw [lastLine_append]
+    by_cases hnl : '\n' ∈ s
+    · rw [if_pos (hcnt.2 hnl), if_pos hnl, (foldl_cursorStep (lastLine s) _).2.2 0 rfl, tabWidth_eq_fold]
+    · rw [if_neg (fun h => hnl (hcnt.1 h)), if_neg hnl]
+      have : lastLine s = s := lastLine_of_no_nl s hnl
+      rw [this, (foldl_cursorStep s _).2.2 (tabWidth (lastLine pre)) (by simp only; exact hp.tcol), tabWidth_append]
+
+/-! ## searching `*/` -/
+
+theorem indexOf_ss_skip : ∀ (p q : List UInt8), (∀ x ∈ p, x ≠ 42) →
+    indexOf [42, 47] (p ++ q) = (indexOf [42, 47] q).map (· + p.length) := by
+  intro p
+  induction p with
+  | nil => intro q _; simp
+  | cons x p ih =>
+    intro q h
+    have hx : x ≠ 42 := h x (by simp)
+    simp only [List.cons_append, indexOf, List.isPrefixOf, List.length_cons]
+    have : ((42 : UInt8) == x) = false := by simp [Ne.symm hx]
+    simp only [this, Bool.false_and, Bool.false_eq_true, if_false]
+    rw [ih q (fun y hy => h y (by simp [hy]))]
+    cases indexOf [42, 47] q <;> simp; omega
+
+theorem indexOf_ss_star (q : List UInt8) (h : ∀ x r, q = x :: r → x ≠ 47) :
+    indexOf [42, 47] (42 :: q) = (indexOf [42, 47] q).map (· + 1) := by
+  cases q with
+  | nil => simp [indexOf, List.isPrefixOf]
+  | cons x r =>
+    have hx := h x r rfl
+    have : ((47 : UInt8) == x) = false := by simp [Ne.symm hx]
+    conv => lhs; rw [indexOf]
+    simp only [List.isPrefixOf, this, Bool.false_and, Bool.and_false, Bool.false_eq_true, if_false, List.isEmpty_cons]
+
+theorem enc_star : encChar '*' = [42] := by decide
+theorem enc_slash : encChar '/' = [47] := by decide
+
+theorem encodeChars_head_ne (d : Char) (r : List Char) (c : Char) (hc : c.toNat ≤ 127) (hd : d ≠ c) :
+    ∀ x t, encodeChars (d :: r) = x :: t → x ≠ UInt8.ofNat c.toNat := by
+  intro x t h he
+  rw [encodeChars_cons] at h
+  have hm : x ∈ encChar d := by
+    cases hed : encChar d with
+    | nil => exact absurd hed (encChar_ne_nil d)
+    | cons y ys =>
+      rw [hed] at h
+      simp only [List.cons_append, List.cons.injEq] at h
+      rw [← h.1]; simp
+  rw [he] at hm
+  exact not_mem_encChar d c hc hd hm
+
+theorem indexOf_ss : ∀ (n : Nat) (cs : List Char), cs.length ≤ n →
+    indexOf [42, 47] (encodeChars cs) = (findSS cs).map (fun p => (encodeChars p.1).length) := by
+  intro n
+  induction n with
+  | zero =>
+    intro cs hn
+    have : cs = [] := List.eq_nil_of_length_eq_zero (by omega)
+    subst this; simp [findSS, encodeChars, indexOf]
+  | succ n ih =>
+    intro cs hn
+    cases cs with
+    | nil => simp [findSS, encodeChars, indexOf]
+    | cons c cs =>
+      have hstep : ∀ (hne : ¬ (c = '*' ∧ ∃ r, cs = '/' :: r)),
+          indexOf [42, 47] (encodeChars (c :: cs)) =
+            (indexOf [42, 47] (encodeChars cs)).map (· + (encChar c).length) := by
+        intro hne
+        rw [encodeChars_cons]
+        by_cases hc : c = '*'
+        · subst hc
+          rw [enc_star]
+          simp only [List.cons_append, List.nil_append, List.length_cons, List.length_nil]
+          apply indexOf_ss_star
+          intro x t hxt
+          cases cs with
+          | nil => simp [encodeChars] at hxt
+          | cons d r =>
+            have hd : d ≠ '/' := fun h => hne ⟨rfl, r, by rw [h]⟩
+            exact encodeChars_head_ne d r '/' (by decide) hd x t hxt
+        · apply indexOf_ss_skip
+          intro x hx he
+          rw [he] at hx
+          exact not_mem_encChar c '*' (by decide) hc hx
+      cases cs with
+      | nil =>
+        rw [hstep (fun h => by obtain ⟨_, r, hr⟩ := h; cases hr)]
+        simp [findSS, encodeChars, indexOf]
+      | cons d r =>
+        rw [findSS]
+        by_cases hcd : c = '*' ∧ d = '/'
+        · rw [if_pos hcd, hcd.1, hcd.2, encodeChars_cons, encodeChars_cons, enc_star, enc_slash]
+          simp [indexOf, List.isPrefixOf, encodeChars]
+        · rw [if_neg hcd]
+          rw [hstep (fun h => by obtain ⟨h1, r', hr⟩ := h; simp only [List.cons.injEq] at hr; exact hcd ⟨h1, hr.1⟩)]
+          rw [ih (d :: r) (by simp only [List.length_cons] at hn ⊢; omega)]
+          cases findSS (d :: r) with
+          | none => rfl
+          | some p =>
+            simp only [Option.map_some, Option.some.injEq]
+            rw [encodeChars_cons, List.length_append]; omega
+
+/-! ## nothing queued, nothing wrong -/
+
+structure Ready (file : List UInt8) (l : Lexer) : Prop where
+  items : l.items = []
+  errout : l.errout = []
+  errcnt : l.errcnt = 0
+  fault : l.fault = .none
+  file : l.file = file
+
+theorem Frame.ready {file : List UInt8} {l l' : Lexer} (h : Frame l l') (hr : Ready file l) : Ready file l' :=
+  ⟨h.items.trans hr.items, h.errout.trans hr.errout, h.errcnt.trans hr.errcnt, h.fault.trans hr.fault,
+   h.file.trans hr.file⟩
+
+/-- the first error is always written -/
+theorem errorfAt_errout (line col : Int) (cls : ErrClass) (l : Lexer) (h : l.errcnt = 0 ∨ l.errout ≠ []) :
+    (errorfAt line col cls l).errout ≠ [] := by
+  rcases h with h | h
+  · unfold errorfAt errorf adderror
+    simp only
+    have he : (emit Code.error { l with line := line, col := col }).errcnt = 0 := by
+      unfold emit
+      split
+      · unfold setFault; split <;> exact h
+      · exact (emitText_spec _ _ _).2.2.2.2.2.2.2.2.trans h
+    rw [if_neg (by rw [he]; decide), if_neg (by rw [he]; decide)]
+    simp
+  · exact errorfAt_keeps line col cls l h
+
+/-- emitting into the empty queue -/
+theorem emitText_items (c : Code) (text : List UInt8) (l : Lexer) (h : l.items = []) :
+    (emitText c text l).items = [{ code := c, text := text, file := l.file, line := l.sline, col := l.scol + 1 }] := by
+  unfold emitText consume
+  simp only
+  rw [h]
+  simp [maxErrors]
+
+theorem emitText_frame (c : Code) (text : List UInt8) (l : Lexer) :
+    (emitText c text l).before = l.before ∧ (emitText c text l).rest = l.rest ∧
+    (emitText c text l).line = l.line ∧ (emitText c text l).col = l.col ∧ (emitText c text l).tcol = l.tcol ∧
+    (emitText c text l).errout = l.errout ∧ (emitText c text l).errcnt = l.errcnt ∧
+    (emitText c text l).fault = l.fault ∧ (emitText c text l).file = l.file ∧
+    (emitText c text l).inPattern = l.inPattern ∧ (emitText c text l).start = l.before.length ∧
+    (emitText c text l).state = l.state := by
+  unfold emitText consume Lexer.pos
+  simp only
+  split <;> exact ⟨rfl, rfl, rfl, rfl, rfl, rfl, rfl, rfl, rfl, rfl, rfl, rfl⟩
+
+/-- the text of the token under construction is the encoding of the characters read since `start` -/
+theorem emit_eq (c : Code) (l : Lexer) (pre0 tk suf : List Char) (hc : Cur l (pre0 ++ tk) suf)
+    (hs : l.start = (encodeChars pre0).length) : emit c l = emitText c (encodeChars tk) l := by
+  unfold emit Lexer.pos
+  have hb : l.before = (encodeChars tk).reverse ++ (encodeChars pre0).reverse := by
+    rw [hc.before, encodeChars_append, List.reverse_append]
+  have hlen : l.before.length = (encodeChars tk).length + (encodeChars pre0).length := by
+    rw [hb]; simp
+  rw [if_neg (by omega)]
+  congr 1
+  rw [hb, hs]
+  have : ((encodeChars tk).reverse ++ (encodeChars pre0).reverse).length - (encodeChars pre0).length =
+      (encodeChars tk).reverse.length := by simp
+  rw [this, List.take_left' rfl]
+  simp
+
+/-! ## double-quoted strings -/
+
+open Goyang.Lemmas.QStr in
+/-- the characters of raw items -/
+def itemsChars : List QItem → List Char
+  | [] => []
+  | .lit c :: r => c :: itemsChars r
+  | .esc c :: r => '\\' :: c :: itemsChars r
+
+/-- literal items are neither a quote nor a backslash -/
+def wfItems : List QItem → Prop
+  | [] => True
+  | .lit c :: r => c ≠ '"' ∧ c ≠ '\\' ∧ wfItems r
+  | .esc _ :: r => wfItems r
+
+theorem scanDq_split : ∀ (n : Nat) (cs : List Char), cs.length ≤ n → ∀ (items : List QItem) (r : List Char),
+    scanDq cs = some (items, r) → cs = itemsChars items ++ '"' :: r ∧ wfItems items := by
+  intro n
+  induction n with
+  | zero =>
+    intro cs hn items r h
+    have : cs = [] := List.eq_nil_of_length_eq_zero (by omega)
+    subst this; simp [scanDq] at h
+  | succ n ih =>
+    intro cs hn items r h
+    cases cs with
+    | nil => simp [scanDq] at h
+    | cons c cs =>
+      unfold scanDq at h
+      split at h
+      · rename_i hc
+        simp only [Option.some.injEq, Prod.mk.injEq] at h
+        rw [← h.1, ← h.2, hc]; exact ⟨rfl, trivial⟩
+      · rename_i hq
+        split at h
+        · rename_i hb
+          split at h
+          · cases h
+          · rename_i e r0
+            cases hs : scanDq r0 with
+            | none => simp [hs] at h
+            | some p =>
+              obtain ⟨s', r'⟩ := p
+              simp only [hs, Option.map_some, Option.some.injEq, Prod.mk.injEq] at h
+              obtain ⟨h1, h2⟩ := ih r0 (by simp only [List.length_cons] at hn; omega) s' r' hs
+              rw [← h.1, ← h.2, h1, hb]
+              exact ⟨rfl, h2⟩
+        · rename_i hb
+          cases hs : scanDq cs with
+          | none => simp [hs] at h
+          | some p =>
+            obtain ⟨s', r'⟩ := p
+            simp only [hs, Option.map_some, Option.some.injEq, Prod.mk.injEq] at h
+            obtain ⟨h1, h2⟩ := ih cs (by simp only [List.length_cons] at hn; omega) s' r' hs
+            rw [← h.1, ← h.2, h1]
+            exact ⟨rfl, hq, hb, h2⟩
+
+open Goyang.Lemmas.QStr in
+/-- trimming bytes = trimming characters -/
+theorem trimTrailing_enc (tc : List Char) : trimTrailing (encodeChars tc) = encodeChars (trimC tc) := by
+  unfold trimTrailing trimC
+  have h1 := encodeChars_reverse tc.reverse
+  rw [List.reverse_reverse] at h1
+  rw [h1]
+  have key : ∀ (r : List Char),
+      (r.flatMap (fun c => (encChar c).reverse)).dropWhile (fun b => b == 32 || b == 9) =
+        (r.dropWhile isBlank).flatMap (fun c => (encChar c).reverse) := by
+    intro r
+    induction r with
+    | nil => rfl
+    | cons d r ih =>
+      rw [List.flatMap_cons, List.dropWhile_cons]
+      by_cases hd : isBlank d = true
+      · rw [if_pos hd]
+        have : encChar d = [32] ∨ encChar d = [9] := by
+          simp only [isBlank, Bool.or_eq_true, decide_eq_true_eq] at hd
+          rcases hd with hd | hd
+          · left; rw [hd]; decide
+          · right; rw [hd]; decide
+        rcases this with h | h <;> (rw [h]; simp [List.dropWhile_cons]; exact ih)
+      · rw [if_neg hd, List.flatMap_cons]
+        cases hr : (encChar d).reverse with
+        | nil =>
+          have : encChar d = [] := by simpa using hr
+          exact absurd this (encChar_ne_nil d)
+        | cons x xs =>
+          have hx : x ∈ encChar d := by
+            have : x ∈ (encChar d).reverse := by rw [hr]; simp
+            simpa using this
+          have hnb : (x == 32 || x == 9) = false := by
+            simp only [Bool.or_eq_false_iff, beq_eq_false_iff_ne, ne_eq]
+            constructor
+            · intro he
+              rw [he] at hx
+              have := (mem_encChar_ascii d 32 (by decide) hx).2
+              apply hd
+              have hd' : d = ' ' := char_eq_of_toNat_eq d ' ' (by rw [this]; decide)
+              rw [hd']; decide
+            · intro he
+              rw [he] at hx
+              have := (mem_encChar_ascii d 9 (by decide) hx).2
+              apply hd
+              have hd' : d = '\t' := char_eq_of_toNat_eq d '\t' (by rw [this]; decide)
+              rw [hd']; decide
+          simp only [List.cons_append, List.dropWhile_cons, hnb, Bool.false_eq_true, if_false]
+  rw [key, ← encodeChars_reverse, List.reverse_reverse]
+
+/-! ### one iteration of the loop, by the rune read -/
+
+theorem qloop_eof (i ln cl : Int) (f : Nat) (text : List UInt8) (over : Bool) (l : Lexer)
+    (h : (next l).1 = eofRune) :
+    qstringLoop i ln cl (f + 1) text over l = setState .done (errorfAt ln cl .missingDQuote (next l).2) := by
+  rw [qstringLoop]; simp only [h, if_true]
+
+theorem qloop_quote (i ln cl : Int) (f : Nat) (text : List UInt8) (over : Bool) (l : Lexer)
+    (h : (next l).1 = 34) :
+    qstringLoop i ln cl (f + 1) text over l = setState .ground (emitText .string text (next l).2) := by
+  rw [qstringLoop]; simp only [h]; simp [eofRune]
+
+theorem qloop_nl (i ln cl : Int) (f : Nat) (text : List UInt8) (over : Bool) (l : Lexer)
+    (h : (next l).1 = 10) :
+    qstringLoop i ln cl (f + 1) text over l =
+      qstringLoop i ln cl f (trimTrailing text ++ encodeRune 10) false (next l).2 := by
+  rw [qstringLoop]; simp only [h]; simp [eofRune]
+
+theorem qloop_blank (i ln cl : Int) (f : Nat) (text : List UInt8) (over : Bool) (l : Lexer)
+    (h : (next l).1 = 32 ∨ (next l).1 = 9) :
+    qstringLoop i ln cl (f + 1) text over l =
+      if !over && (next l).2.tcol ≤ i then qstringLoop i ln cl f text over (next l).2
+      else qstringLoop i ln cl f (text ++ encodeRune (next l).1) true (next l).2 := by
+  rw [qstringLoop]
+  rcases h with h | h <;> simp only [h] <;> simp [eofRune]
+
+theorem qloop_plain (i ln cl : Int) (f : Nat) (text : List UInt8) (over : Bool) (l : Lexer)
+    (h1 : (next l).1 ≠ eofRune) (h2 : (next l).1 ≠ 34) (h3 : (next l).1 ≠ 10) (h4 : (next l).1 ≠ 32)
+    (h5 : (next l).1 ≠ 9) (h6 : (next l).1 ≠ 92) :
+    qstringLoop i ln cl (f + 1) text over l =
+      qstringLoop i ln cl f (text ++ encodeRune (next l).1) true (next l).2 := by
+  rw [qstringLoop]; simp only [h1, h2, h3, h4, h5, h6, if_false, Bool.or_self, Bool.false_eq_true, decide_false]
+
+theorem qloop_esc (i ln cl : Int) (f : Nat) (text : List UInt8) (over : Bool) (l : Lexer)
+    (h : (next l).1 = 92) :
+    qstringLoop i ln cl (f + 1) text over l =
+      if (next (next l).2).1 = 110 then qstringLoop i ln cl f (text ++ encodeRune 10) true (next (next l).2).2
+      else if (next (next l).2).1 = 116 then qstringLoop i ln cl f (text ++ encodeRune 9) true (next (next l).2).2
+      else if (next (next l).2).1 = 34 || (next (next l).2).1 = 92 then
+        qstringLoop i ln cl f (text ++ encodeRune (next (next l).2).1) true (next (next l).2).2
+      else qstringLoop i ln cl f (text ++ [92] ++ encodeRune (next (next l).2).1) true
+        (if !(next (next l).2).2.inPattern then
+          errorfAt (next l).2.line ((next l).2.col - 1) .invalidEscape (next (next l).2).2
+         else (next (next l).2).2) := by
+  rw [qstringLoop]; simp only [h]; simp [eofRune]
+
+theorem char_ne_eof (c : Char) : c.toNat ≠ eofRune := by
+  have := char_range c
+  unfold eofRune; omega
+
+theorem encodeChars_snoc (tc : List Char) (c : Char) : encodeChars (tc ++ [c]) = encodeChars tc ++ encChar c := by
+  rw [encodeChars_append, encodeChars_cons, encodeChars_nil, List.append_nil]
+
+open Goyang.Lemmas.QStr in
+/-- the loop of `lexQString` performs the fold `stepC` and stops at the closing quote — when no
+error is written (every backslash pair is defined, or the lexer is in pattern mode) -/
+theorem qstringLoop_good (indent : Nat) (line col : Int) (r' : List Char) :
+    ∀ (items : List QItem) (f : Nat) (s : QS) (l : Lexer) (pre : List Char),
+    wfItems items → Cur l pre (itemsChars items ++ '"' :: r') → Pos l pre →
+    (s.over = false → tcolAfter pre = ((s.w : Nat) : Int)) →
+    (encodeChars (itemsChars items ++ '"' :: r')).length + 1 ≤ f →
+    (l.inPattern = true ∨ items.all validEsc = true) →
+    ∃ l', qstringLoop indent line col f (encodeChars s.text) s.over l =
+        setState .ground (emitText .string (encodeChars (items.foldl (stepC indent) s).text) l') ∧
+      Cur l' (pre ++ (itemsChars items ++ ['"'])) r' ∧ Pos l' (pre ++ (itemsChars items ++ ['"'])) ∧
+      Frame l l' := by
+  intro items
+  induction items with
+  | nil =>
+    intro f s l pre _ hc hp _ hf _
+    obtain ⟨f, rfl⟩ : ∃ f', f = f' + 1 := ⟨f - 1, by omega⟩
+    obtain ⟨n1, n2, n3, _, n5⟩ := next_char l pre r' '"' hc (hp.posN _)
+    exact ⟨(next l).2, qloop_quote _ _ _ _ _ _ _ (by rw [n1]; decide), n2, n3, n5⟩
+  | cons q items ih =>
+    intro f s l pre hwf hc hp hw hf hpat
+    obtain ⟨f, rfl⟩ : ∃ f', f = f' + 1 := ⟨f - 1, by omega⟩
+    cases q with
+    | lit c =>
+      obtain ⟨hq, hb, hwf'⟩ := hwf
+      have hc' : Cur l pre (c :: (itemsChars items ++ '"' :: r')) := hc
+      obtain ⟨n1, n2, n3, _, n5⟩ := next_char l pre _ c hc' (hp.posN _)
+      have hlen := encodeChars_length_cons c (itemsChars items ++ '"' :: r')
+      have hf' : (encodeChars (itemsChars items ++ '"' :: r')).length + 1 ≤ f := by
+        have : (encodeChars (c :: (itemsChars items ++ '"' :: r'))).length + 1 ≤ f + 1 := hf
+        omega
+      have hpat' : (next l).2.inPattern = true ∨ items.all validEsc = true := by
+        rcases hpat with h | h
+        · left; rw [n5.inPattern]; exact h
+        · right; simp only [List.all_cons, Bool.and_eq_true] at h; exact h.2
+      have hassoc : pre ++ [c] ++ (itemsChars items ++ ['"']) = pre ++ (itemsChars (QItem.lit c :: items) ++ ['"']) := by
+        simp [itemsChars]
+      by_cases hnl : c = '\n'
+      · -- a line break
+        subst hnl
+        rw [qloop_nl _ _ _ _ _ _ _ (by rw [n1]; decide)]
+        have htext : trimTrailing (encodeChars s.text) ++ encodeRune 10 =
+            encodeChars (trimC s.text ++ ['\n']) := by
+          rw [trimTrailing_enc, encodeChars_snoc]; rfl
+        rw [htext]
+        obtain ⟨l', h1, h2, h3, h4⟩ := ih f ⟨trimC s.text ++ ['\n'], false, 0⟩ (next l).2 (pre ++ ['\n']) hwf' n2 n3
+          (fun _ => by rw [tcolAfter_snoc]; simp) hf' hpat'
+        refine ⟨l', ?_, by rw [← hassoc]; exact h2, by rw [← hassoc]; exact h3, n5.trans h4⟩
+        rw [h1]
+        simp [stepC]
+      · by_cases hbl : isBlank c = true
+        · -- a blank
+          have hr : (next l).1 = 32 ∨ (next l).1 = 9 := by
+            rw [n1]
+            simp only [isBlank, Bool.or_eq_true, decide_eq_true_eq] at hbl
+            rcases hbl with h | h
+            · left; rw [h]; decide
+            · right; rw [h]; decide
+          rw [qloop_blank _ _ _ _ _ _ _ hr]
+          have htc : (next l).2.tcol = tcolAfter (pre ++ [c]) := n3.tcol
+          have hadv : s.over = false → tcolAfter (pre ++ [c]) = ((adv s.w c : Nat) : Int) := by
+            intro ho
+            rw [tcolAfter_snoc, if_neg hnl, hw ho]
+            unfold adv
+            by_cases ht : c = '\t'
+            · rw [if_pos ht, if_pos ht]; push_cast; omega
+            · rw [if_neg ht, if_neg ht]; push_cast; rfl
+          by_cases hskip : (!s.over && decide (adv s.w c ≤ indent)) = true
+          · have hover : s.over = false := by
+              cases ho : s.over with
+              | false => rfl
+              | true => rw [ho] at hskip; simp at hskip
+            have hle : adv s.w c ≤ indent := by
+              rw [hover] at hskip; simpa using hskip
+            rw [if_pos (by
+              rw [hover, htc, hadv hover]
+              simp only [Bool.not_false, Bool.true_and, decide_eq_true_eq]
+              exact Int.ofNat_le.mpr hle)]
+            obtain ⟨l', h1, h2, h3, h4⟩ := ih f ⟨s.text, false, adv s.w c⟩ (next l).2 (pre ++ [c]) hwf' n2 n3
+              (fun _ => hadv hover) hf' hpat'
+            refine ⟨l', ?_, by rw [← hassoc]; exact h2, by rw [← hassoc]; exact h3, n5.trans h4⟩
+            rw [hover]
+            rw [h1]
+            simp only [List.foldl_cons, stepC, if_neg hnl, hbl, if_true, hover, Bool.not_false, Bool.true_and,
+              decide_eq_true_eq, hle]
+          · have hskip' : (!s.over && decide (adv s.w c ≤ indent)) = false := by simpa using hskip
+            rw [if_neg (by
+              intro hcond
+              simp only [Bool.and_eq_true, Bool.not_eq_eq_eq_not, Bool.not_true, decide_eq_true_eq] at hcond
+              obtain ⟨ho, hle⟩ := hcond
+              rw [htc, hadv ho] at hle
+              rw [ho] at hskip'
+              simp only [Bool.not_false, Bool.true_and, decide_eq_false_iff_not] at hskip'
+              exact hskip' (Int.ofNat_le.mp hle))]
+            have htext : encodeChars s.text ++ encodeRune (next l).1 = encodeChars (s.text ++ [c]) := by
+              rw [n1, encodeChars_snoc]; rfl
+            rw [htext]
+            obtain ⟨l', h1, h2, h3, h4⟩ := ih f ⟨s.text ++ [c], true, adv s.w c⟩ (next l).2 (pre ++ [c]) hwf' n2 n3
+              (fun h => by cases h) hf' hpat'
+            refine ⟨l', ?_, by rw [← hassoc]; exact h2, by rw [← hassoc]; exact h3, n5.trans h4⟩
+            rw [h1]
+            simp only [List.foldl_cons, stepC, if_neg hnl, hbl, if_true]
+            rw [if_neg (by simpa using hskip')]
+        · -- an ordinary character
+          have hbl' : isBlank c = false := by simpa using hbl
+          have hsp : c ≠ ' ' := by intro h; rw [h] at hbl'; simp [isBlank] at hbl'
+          have htb : c ≠ '\t' := by intro h; rw [h] at hbl'; simp [isBlank] at hbl'
+          rw [qloop_plain _ _ _ _ _ _ _ (by rw [n1]; exact char_ne_eof c)
+            (by rw [n1]; intro h; exact hq ((toNat_eq_iff c '"').1 h))
+            (by rw [n1]; intro h; exact hnl ((toNat_eq_iff c '\n').1 h))
+            (by rw [n1]; intro h; exact hsp ((toNat_eq_iff c ' ').1 h))
+            (by rw [n1]; intro h; exact htb ((toNat_eq_iff c '\t').1 h))
+            (by rw [n1]; intro h; exact hb ((toNat_eq_iff c '\\').1 h))]
+          have htext : encodeChars s.text ++ encodeRune (next l).1 = encodeChars (s.text ++ [c]) := by
+            rw [n1, encodeChars_snoc]; rfl
+          rw [htext]
+          obtain ⟨l', h1, h2, h3, h4⟩ := ih f ⟨s.text ++ [c], true, adv s.w c⟩ (next l).2 (pre ++ [c]) hwf' n2 n3
+            (fun h => by cases h) hf' hpat'
+          refine ⟨l', ?_, by rw [← hassoc]; exact h2, by rw [← hassoc]; exact h3, n5.trans h4⟩
+          rw [h1]
+          simp only [List.foldl_cons, stepC, if_neg hnl, hbl', Bool.false_eq_true, if_false]
+    | esc e =>
+      have hwf' : wfItems items := hwf
+      have hc' : Cur l pre ('\\' :: e :: (itemsChars items ++ '"' :: r')) := hc
+      obtain ⟨n1, n2, n3, _, n5⟩ := next_char l pre _ '\\' hc' (hp.posN _)
+      obtain ⟨m1, m2, m3, _, m5⟩ := next_char (next l).2 (pre ++ ['\\']) _ e n2 (n3.posN _)
+      have hlen1 := encodeChars_length_cons '\\' (e :: (itemsChars items ++ '"' :: r'))
+      have hlen2 := encodeChars_length_cons e (itemsChars items ++ '"' :: r')
+      have hf' : (encodeChars (itemsChars items ++ '"' :: r')).length + 1 ≤ f := by
+        have : (encodeChars ('\\' :: e :: (itemsChars items ++ '"' :: r'))).length + 1 ≤ f + 1 := hf
+        omega
+      have hpat' : (next (next l).2).2.inPattern = true ∨ items.all validEsc = true := by
+        rcases hpat with h | h
+        · left; rw [m5.inPattern, n5.inPattern]; exact h
+        · right; simp only [List.all_cons, Bool.and_eq_true] at h; exact h.2
+      have hassoc : pre ++ ['\\'] ++ [e] ++ (itemsChars items ++ ['"']) =
+          pre ++ (itemsChars (QItem.esc e :: items) ++ ['"']) := by
+        simp [itemsChars]
+      rw [qloop_esc _ _ _ _ _ _ _ (by rw [n1]; decide), m1]
+      have fin : ∀ (tb : List UInt8) (l2 : Lexer), tb = encodeChars (s.text ++ escValue e) →
+          l2 = (next (next l).2).2 →
+          ∃ l', qstringLoop indent line col f tb true l2 =
+            setState .ground (emitText .string
+              (encodeChars ((QItem.esc e :: items).foldl (stepC indent) s).text) l') ∧
+          Cur l' (pre ++ (itemsChars (QItem.esc e :: items) ++ ['"'])) r' ∧
+          Pos l' (pre ++ (itemsChars (QItem.esc e :: items) ++ ['"'])) ∧ Frame l l' := by
+        intro tb l2 htb hl2
+        subst htb hl2
+        obtain ⟨l', h1, h2, h3, h4⟩ := ih f ⟨s.text ++ escValue e, true, s.w⟩ (next (next l).2).2
+          (pre ++ ['\\'] ++ [e]) hwf' m2 m3 (fun h => by cases h) hf' hpat'
+        exact ⟨l', by rw [h1]; simp only [List.foldl_cons, stepC], by rw [← hassoc]; exact h2,
+          by rw [← hassoc]; exact h3, (n5.trans m5).trans h4⟩
+      have k110 : e.toNat = 110 ↔ e = 'n' := toNat_eq_iff e 'n'
+      have k116 : e.toNat = 116 ↔ e = 't' := toNat_eq_iff e 't'
+      have k34 : e.toNat = 34 ↔ e = '"' := toNat_eq_iff e '"'
+      have k92 : e.toNat = 92 ↔ e = '\\' := toNat_eq_iff e '\\'
+      by_cases h1 : e = 'n'
+      · rw [if_pos (k110.2 h1)]
+        exact fin _ _ (by rw [encodeChars_append, h1]; rfl) rfl
+      · rw [if_neg (fun h => h1 (k110.1 h))]
+        by_cases h2 : e = 't'
+        · rw [if_pos (k116.2 h2)]
+          exact fin _ _ (by rw [encodeChars_append, h2]; rfl) rfl
+        · rw [if_neg (fun h => h2 (k116.1 h))]
+          by_cases h3 : e = '"' ∨ e = '\\'
+          · rw [if_pos (by
+              simp only [Bool.or_eq_true, decide_eq_true_eq]
+              rcases h3 with h | h
+              · exact Or.inl (k34.2 h)
+              · exact Or.inr (k92.2 h))]
+            refine fin _ _ ?_ rfl
+            rw [encodeChars_append]
+            congr 1
+            rcases h3 with h | h <;> (rw [h]; rfl)
+          · have h3' : e ≠ '"' ∧ e ≠ '\\' := ⟨fun h => h3 (Or.inl h), fun h => h3 (Or.inr h)⟩
+            rw [if_neg (by
+              simp only [Bool.or_eq_true, decide_eq_true_eq, not_or]
+              exact ⟨fun h => h3'.1 (k34.1 h), fun h => h3'.2 (k92.1 h)⟩)]
+            have hpt : (next (next l).2).2.inPattern = true := by
+              rcases hpat with h | h
+              · rw [m5.inPattern, n5.inPattern]; exact h
+              · simp [validEsc, h1, h2, h3'.1, h3'.2] at h
+            rw [hpt]
+            simp only [Bool.not_true, Bool.false_eq_true, if_false]
+            refine fin _ _ ?_ rfl
+            rw [encodeChars_append]
+            simp only [escValue, if_neg h1, if_neg h2, if_neg h3'.1, if_neg h3'.2]
+            rw [List.append_assoc]
+            congr 1
+            rw [encodeChars_cons, encodeChars_cons, encodeChars_nil, List.append_nil]
+            rfl
+
+/-- after a character that is neither a quote nor a backslash the loop goes on -/
+theorem qloop_lit (i ln cl : Int) (f : Nat) (text : List UInt8) (over : Bool) (l : Lexer) (c : Char)
+    (h : (next l).1 = c.toNat) (hq : c ≠ '"') (hb : c ≠ '\\') :
+    ∃ tb ov, qstringLoop i ln cl (f + 1) text over l = qstringLoop i ln cl f tb ov (next l).2 := by
+  by_cases hnl : c = '\n'
+  · exact ⟨_, _, qloop_nl _ _ _ _ _ _ _ (by rw [h, hnl]; decide)⟩
+  · by_cases hsp : c = ' ' ∨ c = '\t'
+    · have hr : (next l).1 = 32 ∨ (next l).1 = 9 := by
+        rw [h]; rcases hsp with hh | hh
+        · left; rw [hh]; decide
+        · right; rw [hh]; decide
+      rw [qloop_blank _ _ _ _ _ _ _ hr]
+      split
+      · exact ⟨_, _, rfl⟩
+      · exact ⟨_, _, rfl⟩
+    · have h1 : c ≠ ' ' := fun hh => hsp (Or.inl hh)
+      have h2 : c ≠ '\t' := fun hh => hsp (Or.inr hh)
+      exact ⟨_, _, qloop_plain _ _ _ _ _ _ _ (by rw [h]; exact char_ne_eof c)
+        (by rw [h]; intro hh; exact hq ((toNat_eq_iff c '"').1 hh))
+        (by rw [h]; intro hh; exact hnl ((toNat_eq_iff c '\n').1 hh))
+        (by rw [h]; intro hh; exact h1 ((toNat_eq_iff c ' ').1 hh))
+        (by rw [h]; intro hh; exact h2 ((toNat_eq_iff c '\t').1 hh))
+        (by rw [h]; intro hh; exact hb ((toNat_eq_iff c '\\').1 hh))⟩
+
+open Goyang.Lemmas.QStr in
+/-- the raw text has no closing quote, or (outside pattern mode) an undefined backslash pair -/
+def DqBad (b : Bool) (r : List Char) : Prop :=
+  scanDq r = none ∨ ∃ items r', scanDq r = some (items, r') ∧ b = false ∧ items.all validEsc = false
+
+theorem next_eof_cur (l : Lexer) (pre : List Char) (hc : Cur l pre []) :
+    (next l).1 = eofRune ∧ Cur (next l).2 pre [] ∧ Frame l (next l).2 := by
+  have hr : l.rest = [] := by rw [hc.rest]; rfl
+  rw [next_nil l hr]
+  exact ⟨rfl, ⟨hc.before, hc.rest, hc.line⟩, ⟨rfl, rfl, rfl, rfl, rfl, rfl, rfl, rfl, rfl, rfl⟩⟩
+
+open Goyang.Lemmas.QStr in
+/-- ... then the loop ends with an error written -/
+theorem qstringLoop_bad (i ln cl : Int) : ∀ (n : Nat) (r : List Char), r.length ≤ n →
+    ∀ (f : Nat) (text : List UInt8) (over : Bool) (l : Lexer) (pre : List Char),
+    Cur l pre r → (l.errcnt = 0 ∨ l.errout ≠ []) → (encodeChars r).length + 2 ≤ f → DqBad l.inPattern r →
+    (qstringLoop i ln cl f text over l).errout ≠ [] := by
+  intro n
+  induction n using Nat.strongRecOn with
+  | _ n ih =>
+    intro r hn f text over l pre hc he hf hbad
+    obtain ⟨f, rfl⟩ : ∃ f', f = f' + 1 := ⟨f - 1, by omega⟩
+    cases r with
+    | nil =>
+      obtain ⟨n1, n2, n3⟩ := next_eof_cur l pre hc
+      rw [qloop_eof _ _ _ _ _ _ _ n1]
+      show (errorfAt ln cl .missingDQuote (next l).2).errout ≠ []
+      apply errorfAt_errout
+      rcases he with h | h
+      · left; rw [n3.errcnt]; exact h
+      · right; rw [n3.errout]; exact h
+    | cons c r1 =>
+      obtain ⟨n1, n2, _, n5⟩ := next_char_cur l pre r1 c hc
+      have hlen := encodeChars_length_cons c r1
+      have he1 : (next l).2.errcnt = 0 ∨ (next l).2.errout ≠ [] := by
+        rcases he with h | h
+        · left; rw [n5.errcnt]; exact h
+        · right; rw [n5.errout]; exact h
+      by_cases hq : c = '"'
+      · -- a closing quote: the string is terminated and has no undefined pair
+        exfalso
+        subst hq
+        rcases hbad with h | ⟨items, r', h, _, hall⟩
+        · unfold scanDq at h; simp at h
+        · unfold scanDq at h
+          simp only [if_true, Option.some.injEq, Prod.mk.injEq] at h
+          rw [← h.1] at hall; simp at hall
+      · by_cases hb : c = '\\'
+        · subst hb
+          rw [qloop_esc _ _ _ _ _ _ _ (by rw [n1]; decide)]
+          cases r1 with
+          | nil =>
+            -- backslash at the end of the input
+            obtain ⟨m1, m2, m3⟩ := next_eof_cur (next l).2 _ n2
+            rw [m1]
+            simp only [eofRune, Nat.reduceEqDiff, if_false, Bool.or_self, Bool.false_eq_true, decide_false]
+            obtain ⟨f, rfl⟩ : ∃ f', f = f' + 1 := ⟨f - 1, by
+              have : (encodeChars ['\\']).length = 1 := by decide
+              omega⟩
+            split
+            · have herr := errorfAt_errout (next l).2.line ((next l).2.col - 1) .invalidEscape (next (next l).2).2
+                (by
+                  rcases he1 with h | h
+                  · left; rw [m3.errcnt]; exact h
+                  · right; rw [m3.errout]; exact h)
+              exact qstringLoop_keeps _ _ _ _ _ _ _ herr
+            · obtain ⟨k1, k2, k3⟩ := next_eof_cur (next (next l).2).2 _ m2
+              rw [qloop_eof _ _ _ _ _ _ _ k1]
+              show (errorfAt ln cl .missingDQuote (next (next (next l).2).2).2).errout ≠ []
+              apply errorfAt_errout
+              rcases he1 with h | h
+              · left; rw [k3.errcnt, m3.errcnt]; exact h
+              · right; rw [k3.errout, m3.errout]; exact h
+          | cons e r2 =>
+            obtain ⟨m1, m2, _, m5⟩ := next_char_cur (next l).2 _ r2 e n2
+            have hlen2 := encodeChars_length_cons e r2
+            have he2 : (next (next l).2).2.errcnt = 0 ∨ (next (next l).2).2.errout ≠ [] := by
+              rcases he1 with h | h
+              · left; rw [m5.errcnt]; exact h
+              · right; rw [m5.errout]; exact h
+            have hpat : (next (next l).2).2.inPattern = l.inPattern := by rw [m5.inPattern, n5.inPattern]
+            -- what is known about the rest
+            have hrest : validEsc (.esc e) = true → DqBad l.inPattern r2 := by
+              intro hv
+              rcases hbad with h | ⟨items, r', h, hbf, hall⟩
+              · left
+                unfold scanDq at h
+                simp only [show ('\\' : Char) ≠ '"' by decide, if_false, if_true] at h
+                cases hs : scanDq r2 with
+                | none => rfl
+                | some p => simp [hs] at h
+              · unfold scanDq at h
+                simp only [show ('\\' : Char) ≠ '"' by decide, if_false, if_true] at h
+                cases hs : scanDq r2 with
+                | none => simp [hs] at h
+                | some p =>
+                  obtain ⟨s', r''⟩ := p
+                  simp only [hs, Option.map_some, Option.some.injEq, Prod.mk.injEq] at h
+                  right
+                  refine ⟨s', r'', hs, hbf, ?_⟩
+                  rw [← h.1] at hall
+                  simp only [List.all_cons, hv, Bool.true_and] at hall
+                  exact hall
+            have hfuel : (encodeChars r2).length + 2 ≤ f := by omega
+            have hgo : ∀ tb, (qstringLoop i ln cl f tb true (next (next l).2).2).errout ≠ [] ∨ True := fun _ => Or.inr trivial
+            rw [m1]
+            have k110 : e.toNat = 110 ↔ e = 'n' := toNat_eq_iff e 'n'
+            have k116 : e.toNat = 116 ↔ e = 't' := toNat_eq_iff e 't'
+            have k34 : e.toNat = 34 ↔ e = '"' := toNat_eq_iff e '"'
+            have k92 : e.toNat = 92 ↔ e = '\\' := toNat_eq_iff e '\\'
+            have hvalid : ∀ tb, validEsc (.esc e) = true →
+                (qstringLoop i ln cl f tb true (next (next l).2).2).errout ≠ [] := by
+              intro tb hv
+              exact ih r2.length (by simp only [List.length_cons] at hn; omega) r2 (Nat.le_refl _) f tb true _ _
+                m2 he2 hfuel (by rw [hpat]; exact hrest hv)
+            split
+            · rename_i h1; exact hvalid _ (by simp [validEsc, k110.1 h1])
+            · split
+              · rename_i h2; exact hvalid _ (by simp [validEsc, k116.1 h2])
+              · split
+                · rename_i h3
+                  simp only [Bool.or_eq_true, decide_eq_true_eq] at h3
+                  refine hvalid _ ?_
+                  rcases h3 with h | h
+                  · simp [validEsc, k34.1 h]
+                  · simp [validEsc, k92.1 h]
+                · rename_i h1 h2 h3
+                  simp only [Bool.or_eq_true, decide_eq_true_eq, not_or] at h3
+                  have hinv : validEsc (.esc e) = false := by
+                    simp only [validEsc, Bool.or_eq_false_iff, decide_eq_false_iff_not]
+                    exact ⟨⟨⟨fun h => h1 (k110.2 h), fun h => h2 (k116.2 h)⟩, fun h => h3.1 (k34.2 h)⟩,
+                      fun h => h3.2 (k92.2 h)⟩
+                  by_cases hp : l.inPattern = true
+                  · -- pattern mode: no error here, the rest is bad
+                    rw [hpat, hp]
+                    simp only [Bool.not_true, Bool.false_eq_true, if_false]
+                    refine ih r2.length (by simp only [List.length_cons] at hn; omega) r2 (Nat.le_refl _) f _ true _ _
+                      m2 he2 hfuel ?_
+                    rw [hpat]
+                    rcases hbad with h | ⟨items, r', h, hbf, hall⟩
+                    · left
+                      unfold scanDq at h
+                      simp only [show ('\\' : Char) ≠ '"' by decide, if_false, if_true] at h
+                      cases hs : scanDq r2 with
+                      | none => rfl
+                      | some p => simp [hs] at h
+                    · rw [hp] at hbf; cases hbf
+                  · have hp' : l.inPattern = false := by simpa using hp
+                    rw [hpat, hp']
+                    simp only [Bool.not_false, if_true]
+                    exact qstringLoop_keeps _ _ _ _ _ _ _ (errorfAt_errout _ _ _ _ he2)
+        · -- an ordinary character
+          obtain ⟨tb, ov, hstep⟩ := qloop_lit i ln cl f text over l c n1 hq hb
+          rw [hstep]
+          refine ih r1.length (by simp only [List.length_cons] at hn; omega) r1 (Nat.le_refl _) f tb ov _ _ n2 he1
+            (by omega) ?_
+          rw [n5.inPattern]
+          rcases hbad with h | ⟨items, r', h, hbf, hall⟩
+          · left
+            unfold scanDq at h
+            simp only [hq, hb, if_false] at h
+            cases hs : scanDq r1 with
+            | none => rfl
+            | some p => simp [hs] at h
+          · unfold scanDq at h
+            simp only [hq, hb, if_false] at h
+            cases hs : scanDq r1 with
+            | none => simp [hs] at h
+            | some p =>
+              obtain ⟨s', r''⟩ := p
+              simp only [hs, Option.map_some, Option.some.injEq, Prod.mk.injEq] at h
+              right
+              refine ⟨s', r'', hs, hbf, ?_⟩
+              rw [← h.1] at hall
+              simpa [validEsc] using hall
+
+/-! ## unquoted tokens -/
+
+theorem isUnqDelim_char (c : Char) : isUnqDelim c.toNat = isDelim c := by
+  unfold isUnqDelim isDelim isSpace
+  have h1 : (c.toNat = 32) = (c = ' ') := propext (toNat_eq_iff c ' ')
+  have h2 : (c.toNat = 9) = (c = '\t') := propext (toNat_eq_iff c '\t')
+  have h3 : (c.toNat = 13) = (c = '\r') := propext (toNat_eq_iff c '\r')
+  have h4 : (c.toNat = 10) = (c = '\n') := propext (toNat_eq_iff c '\n')
+  have h5 : (c.toNat = 59) = (c = ';') := propext (toNat_eq_iff c ';')
+  have h6 : (c.toNat = 34) = (c = '"') := propext (toNat_eq_iff c '"')
+  have h7 : (c.toNat = 39) = (c = '\'') := propext (toNat_eq_iff c '\'')
+  have h8 : (c.toNat = 123) = (c = '{') := propext (toNat_eq_iff c '{')
+  have h9 : (c.toNat = 125) = (c = '}') := propext (toNat_eq_iff c '}')
+  have h10 : (c.toNat = eofRune) = False := propext ⟨fun h => char_ne_eof c h, False.elim⟩
+  simp only [h1, h2, h3, h4, h5, h6, h7, h8, h9, h10, decide_false, Bool.or_false]
+  cases decide (c = ' ') <;> cases decide (c = '\t') <;> cases decide (c = '\r') <;> cases decide (c = '\n') <;>
+    cases decide (c = ';') <;> cases decide (c = '"') <;> cases decide (c = '\'') <;> cases decide (c = '{') <;>
+    cases decide (c = '}') <;> rfl
+
+/-- `lexUnquoted` reads up to the next delimiter and emits what has been read since `start` -/
+theorem unquotedLoop_chars (pre0 suf' : List Char) (hs : ∀ c r, suf' = c :: r → isDelim c = true) :
+    ∀ (w : List Char), (∀ x ∈ w, isDelim x = false) → ∀ (f : Nat) (l : Lexer) (tk : List Char),
+    Cur l (pre0 ++ tk) (w ++ suf') → Pos l (pre0 ++ tk) → l.start = (encodeChars pre0).length →
+    (encodeChars (w ++ suf')).length + 1 ≤ f →
+    ∃ l', unquotedLoop f l = setState .ground (emitText .unquoted (encodeChars (tk ++ w)) l') ∧
+      Cur l' (pre0 ++ (tk ++ w)) suf' ∧ PosN l' (pre0 ++ (tk ++ w)) suf' ∧ Frame l l' := by
+  intro w
+  induction w with
+  | nil =>
+    intro _ f l tk hc hp hst hf
+    obtain ⟨f, rfl⟩ : ∃ f', f = f' + 1 := ⟨f - 1, by omega⟩
+    simp only [List.nil_append, List.append_nil] at hc ⊢
+    unfold unquotedLoop
+    simp only
+    cases suf' with
+    | nil =>
+      obtain ⟨p1, p2, p3, p4, p5⟩ := peek_eof l _ hc
+      rw [p1, if_pos isUnqDelim_eof]
+      refine ⟨(peek l).2, ?_, p2, ?_, p5⟩
+      · rw [emit_eq .unquoted (peek l).2 pre0 tk [] p2 (by rw [p5.start]; exact hst)]
+      · show Pos (peek l).2 (pre0 ++ tk)
+        exact ⟨by rw [p3]; exact hp.col, by rw [p4]; exact hp.tcol⟩
+    | cons d r =>
+      obtain ⟨p1, p2, p3, p4⟩ := peek_char l _ r d hc hp
+      rw [p1, isUnqDelim_char, hs d r rfl]
+      simp only [if_true]
+      refine ⟨(peek l).2, ?_, p2, p3, p4⟩
+      rw [emit_eq .unquoted (peek l).2 pre0 tk (d :: r) p2 (by rw [p4.start]; exact hst)]
+  | cons c w ih =>
+    intro hw f l tk hc hp hst hf
+    obtain ⟨f, rfl⟩ : ∃ f', f = f' + 1 := ⟨f - 1, by omega⟩
+    have hc' : Cur l (pre0 ++ tk) (c :: (w ++ suf')) := hc
+    obtain ⟨p1, p2, p3, p4⟩ := peek_char l _ _ c hc' hp
+    obtain ⟨n1, n2, n3, _, n5⟩ := next_char (peek l).2 _ _ c p2 p3
+    unfold unquotedLoop
+    simp only
+    rw [p1, isUnqDelim_char, hw c (by simp)]
+    simp only [Bool.false_eq_true, if_false]
+    have hlen := encodeChars_length_cons c (w ++ suf')
+    obtain ⟨l', h1, h2, h3, h4⟩ := ih (fun x hx => hw x (by simp [hx])) f (next (peek l).2).2 (tk ++ [c])
+      (by rw [← List.append_assoc]; exact n2) (by rw [← List.append_assoc]; exact n3)
+      (by rw [n5.start, p4.start]; exact hst)
+      (by
+        have : (encodeChars (c :: (w ++ suf'))).length + 1 ≤ f + 1 := hf
+        omega)
+    refine ⟨l', ?_, ?_, ?_, (p4.trans n5).trans h4⟩
+    · rw [h1]; simp
+    · simpa using h2
+    · simpa using h3
 
 end Goyang.Lemmas.LexSim
